@@ -388,7 +388,8 @@ def run_handlers(rec, S, F):
         ok = bool(trs) and bool(pops)
         for tr in trs:
             # a PopHandler guarded by try_attributes precedes this transfer in the same arm/function
-            pre = [p for p in pops if evs.index(p) < evs.index(tr) and any(c[0] == "if" and "try_attributes" in c[1] for c in p.ctx)]
+            # guarded by `if self.try_attributes..` (one handler) or emitted once per try entered since the loop began (`for _ in loop.try_depth..try_depth`)
+            pre = [p for p in pops if evs.index(p) < evs.index(tr) and any((c[0] == "if" and "try_attributes" in c[1]) or (c[0] == "for" and "try_depth" in str(c[1])) for c in p.ctx)]
             same = [p for p in pre if all(c in tr.ctx for c in p.ctx if c[0] == "arm")]
             if not same:
                 ok = False
